@@ -83,12 +83,12 @@ Definition pat_assignable (pat : list bval) (s : sval) : bool :=
 
 Definition is_vsub (p : bval) : bool := match p with VSub _ => true | _ => false end.
 
-(* predicates.is_universally_assignable (after the C02 repair: a union of
+(* predicates.is_universally_assignable (after the C02 repair: a union containing
    type[...] patterns, as built for issubclass(x, (A, B)), counts like a single one) *)
 Definition univ_assignable (b : bval) (pat : list bval) : bool :=
   match b with
   | VAny => true
-  | VTyped CType => match pat with [] => false | _ => forallb is_vsub pat end
+  | VTyped CType => existsb is_vsub pat
   | _ => false
   end.
 
